@@ -82,7 +82,8 @@ META = {
                    "natural/harmonic/melodic minor, Bachian, minor Neapolitan) and Chromatic are proved for each of their 15 (30) "
                    "tonics with symbolic n; melodic minor and minor Neapolitan descents against their own patterns. 'descending is "
                    "the exact reverse list', 'degree k agrees with both lists' and 'len follows the list' are lemmas proved per class "
-                   "from those contracts. scales.determine is NOT proved (reflection + string sets): bounded stand-in against a "
+                   "from those contracts. Equality and inequality of two scale objects of ANY classes follow both note lists "
+                   "(ascending()/descending() as opaque functions of the receiver). scales.determine is NOT proved (reflection + string sets): bounded stand-in against a "
                    "brute-force specification.",
         level_note=TB + " Known finding C05/chromatic-descending-spelling (literal reverse-list clause for Chromatic only). "
                         "Assumed (bounded only): the contract of scales.determine. str.islower is modelled partially (False "
@@ -131,14 +132,23 @@ META = {
                    "contract); every channel event is pending-delta + status(channel | type<<4) + data bytes and asserts exactly on "
                    "out-of-range fields; set_deltatime; tempo event = FF 51 03 + big-endian 60000000 div bpm for every bpm >= 4; "
                    "time-signature and key-signature events (all 30 keys, two's-complement count, mode flag); track chunk = MTrk + "
-                   "big-endian length == content + end-of-track. The walkers (play_Bar/Track, writers, repeat counts) and 'decodes "
-                   "to exactly the music written' are NOT proved: independent SMF decoder over systematic and seeded compositions "
-                   "(bounded driver).",
+                   "big-endian length == content + end-of-track; set_meter/set_key/set_tempo, play_/stop_Note and play_/stop_"
+                   "NoteContainer (0..4 notes) append exactly their events, byte for byte, leaving earlier data untouched; "
+                   "play_Bar (bars of 0..3 entries: rests, containers, containers with a tempo; ANY positive values, ticks = "
+                   "round-half-even(288/value) on reals) and play_Track (0..2 bars) call exactly those leaves with exactly those "
+                   "arguments in exactly that order and leave exactly the trailing rests pending (event view: each leaf call's "
+                   "precondition is an obligation, its effect one ghost event); the file header declares format 1, 72 ticks and "
+                   "exactly the number of tracks that have data (0..4 tracks), and the file is the header followed by those "
+                   "tracks' chunks in order (0..3 tracks). The writers with repeat counts, MIDI instruments (program change "
+                   "branch) and 'decodes to exactly the music written' are NOT proved: independent SMF decoder over systematic "
+                   "and seeded compositions (bounded driver).",
         level_note=TB + " Assumed: A_log (floor(math.log(x, b)) exact for 1 <= x < 2^28, b in {2,128}), validated by battery "
                         "log_domain on every run; binascii/struct are modelled built-ins.",
         explanation="Deductive: int_to_varbyte, midi_event (both arities), note_on/off, controller_event, program_change_event, "
                     "set_deltatime, set_tempo_event, time_signature_event, key_signature_event, end_of_track, header, "
-                    "get_midi_data. Bounded: everything that walks containers, via bounded/drivers/C16.py.",
+                    "get_midi_data, set_meter, set_key, set_tempo, play_/stop_Note, play_/stop_NoteContainer, play_Bar, "
+                    "play_Track, MidiFile.header, MidiFile.get_midi_data. Bounded: whole files via bounded/drivers/C16.py. "
+                    "Repaired in /repo while writing these contracts: 8a5bd09 (header counted tracks without data).",
     ),
     "C17": dict(
         claimed=True, level="other",
@@ -146,11 +156,17 @@ META = {
         level_text="Proved: the variable-length reader returns the value of the 7-bit groups and advances file position and byte "
                    "counter by exactly the quantity's length for every well-formed 1..4-byte quantity (ghost file model), which "
                    "together with C16's encoder contract gives decode(encode(n)) == n for all 0 <= n < 2^28; the track-header "
-                   "parser returns the big-endian chunk size and raises the header error exactly when the tag is not MTrk; "
+                   "parser returns the big-endian chunk size and raises the header error exactly when the tag is not MTrk; the "
+                   "file-header parser returns (format, track count, ticks per beat), consumes 14 bytes, returns False for a "
+                   "header chunk shorter than 6 and raises (IOError) exactly when the tag is not MThd, the format number exceeds "
+                   "2 or the time division is frames-per-second; one event of every kind (meta with a 1..4-byte length, one- "
+                   "and two-parameter channel events, note-on with velocity 0 read as note-off) is decoded field by field and "
+                   "the byte count it reports is exactly what it consumed; "
                    "60000000 div (60000000 div bpm) == bpm for every bpm 4..1000 (complete split). The event-stream-to-bars "
                    "reader (MIDI_to_Composition) is NOT proved: write-then-read over systematic and seeded compositions (bounded).",
         level_note=TB + " Assumed (bounded only): bytes_to_int == big-endian value (binascii.b2a_hex + int(.,16)), A_log.",
-        explanation="Deductive: parse_varbyte_as_int, parse_track_header, tempo round trip lemma, VLQ inverse through the two "
+        explanation="Deductive: parse_varbyte_as_int, parse_track_header, parse_midi_file_header, parse_time_division, "
+                    "parse_midi_event, tempo round trip lemma, VLQ inverse through the two "
                     "contracts. Bounded: MIDI_to_Composition round trip via bounded/drivers/C17.py.",
     ),
     "C11": dict(
@@ -189,11 +205,13 @@ META = {
         level_text="Proved for EVERY valid name (any accidentals) and EVERY octave, with three quantified loop invariants and "
                    "variants (termination): lilypond.from_Note yields the lower-case letter, then 'is' per sharp / 'es' per flat "
                    "in order, then one ' per octave above 3 or one , per octave below 3 (none when octaves are not processed), "
-                   "wrapped in braces iff standalone. NOT proved: from_NoteContainer/Bar/Track/Composition and all of MusicXML "
+                   "wrapped in braces iff standalone; from_NoteContainer without a duration is 'r' for a rest or an empty "
+                   "container, the note for one note, and '<' + the notes in order separated by one space + '>' for 2 or 3 "
+                   "notes, in braces iff standalone. NOT proved: durations, from_Bar/Track/Composition and all of MusicXML "
                    "(value analysis, tuplet state machine, xml.dom.minidom object graphs) - independent LilyPond-subset and XML "
                    "readers over systematic and seeded containers (bounded driver).",
         level_note=TB,
-        explanation="Deductive: lilypond.from_Note. Bounded: bounded/drivers/C19.py.",
+        explanation="Deductive: lilypond.from_Note, from_NoteContainer (no duration). Bounded: bounded/drivers/C19.py.",
     ),
     "C20": dict(
         claimed=True, level="other",
@@ -228,11 +246,14 @@ META = {
                    "spelling inside the key are root, third, fifth(, seventh) of the key's notes; triads(key)/sevenths(key) on a "
                    "cold and on a warm memo table return the seven stacks of thirds as FRESH lists and reject every other string; "
                    "the 14 function names and the 22 numeral aliases (incl. vii7) denote exactly those chords; numeral arithmetic "
-                   "skip and interval_diff (with termination). NOT proved: progressions.to_chords / determine / parse and format / "
-                   "the substitution rules (string scanning, recursion) - bounded driver against an independent numeral model.",
+                   "skip and interval_diff (with termination); the memo tables' representation invariant is re-established by "
+                   "every call; parse_string consumes exactly the longest prefix of accidentals and numeral letters of ANY "
+                   "string (signed count, capital letters, suffix = the rest) and tuple_to_string writes |a| accidentals, the "
+                   "numeral, the suffix (quantified invariants). NOT proved: progressions.to_chords / determine / "
+                   "the substitution rules (table dispatch, recursion) - bounded driver against an independent numeral model.",
         level_note=TB,
         explanation="Deductive: chords.triad, seventh, triads, sevenths, tonic..subtonic7, I..VII7, ii..vii7, progressions.skip, "
-                    "interval_diff. Bounded: bounded/drivers/C08.py (124k cases quick). Repaired in /repo: 0c96aa4, 48fa28b.",
+                    "interval_diff, parse_string, tuple_to_string. Bounded: bounded/drivers/C08.py (124k cases quick). Repaired in /repo: 0c96aa4, 48fa28b.",
     ),
     "C12": dict(
         claimed=True, level="other",
@@ -242,10 +263,11 @@ META = {
                    "shorthand). PROVED piece: NoteContainer.add_note on containers holding 0, 1 or 2 notes of ARBITRARY pitch: "
                    "a Note argument keeps the container pitch-ordered and duplicate-free, adds exactly the new pitch and keeps "
                    "every old one; a bare name goes to octave 4 in an empty container and otherwise at or above the top note, "
-                   "less than an octave above it (names whose letter+accidentals stay within one octave; list.sort modelled as "
-                   "a stable insertion sort driven by Note.__lt__).",
+                   "less than an octave above it (list.sort modelled as a stable insertion sort driven by Note.__lt__); "
+                   "add_notes(other container) on receivers of 0..1 and arguments of 0..2 notes: the receiver keeps its OWN "
+                   "list, the argument is left as it was, the result holds exactly the pitches of both.",
         level_note=TB + " The deductive piece is bounded in container size (<= 2 notes before the call), unbounded in pitches.",
-        explanation="Deductive: NoteContainer.add_note (Note and bare-name forms) on containers of <= 2 notes. Bounded: "
+        explanation="Deductive: NoteContainer.add_note (Note and bare-name forms) on containers of <= 2 notes, add_notes(container). Bounded: "
                     "bounded/drivers/C12.py.",
     ),
     "C13": dict(
@@ -278,7 +300,9 @@ META = {
         claimed=True, level="other",
         technique="frame and freshness obligations of the contracts (deductive) plus cold-interpreter / sibling-instance histories (driver)",
         level_text="PROVED as frame/freshness obligations: keys.get_notes, chords.triads, chords.sevenths return lists allocated "
-                   "by the call (never the memo row) on both the cold and the warm table, for all 30 keys; intervals.invert "
+                   "by the call (never the memo row) on both the cold and the warm table, for all 30 keys, and re-establish the "
+                   "tables' representation invariant (only the 30 keys, each mapped to its spec value); a container built "
+                   "from another container owns its list; intervals.invert "
                    "restores its argument for lists of any length and returns a fresh list; chords.invert and the three "
                    "inversion helpers leave their argument unchanged. Every other function under contract in C01-C20 carries a "
                    "'writes outside modifies' obligation in its own property. The history clauses (same value whatever was "
